@@ -23,7 +23,7 @@ class Contract:
                  modifies=(), loops=None, callees=None, returns=None,
                  consts=None, facts=(), decreases=None, ghosts=None,
                  inline=(), notes='', replay=None, prop=None, trusted=False,
-                 self_cls=None, cover=True, max_paths=400, opaque=()):
+                 self_cls=None, cover=True, max_paths=400, opaque=(), kinds=None, label=None):
         self.key = key
         self.params = dict(params or {})
         self.requires = list(requires)
@@ -46,7 +46,13 @@ class Contract:
         self.self_cls = self_cls
         self.cover = cover
         self.max_paths = max_paths
-        self.opaque = list(opaque)             # callee names treated as no-ops (logging)
+        self.opaque = list(opaque)
+        self.kinds = dict(kinds or {})     # name -> element kind(s) of empty list/dict literals assigned to it
+        self.label = label             # callee names treated as no-ops (logging)
+
+    @property
+    def oname(self):
+        return self.key + (f'[{self.label}]' if self.label else '')
 
     def __repr__(self):
-        return f'<Contract {self.key}>'
+        return f'<Contract {self.oname}>'
